@@ -305,7 +305,9 @@ type frozen struct {
 }
 
 // apply performs op on (c,m); returns the container to continue with.
-func apply(c container, m *model, op string, frz *[]frozen) (container, bool) {
+// An error returned by an edit the statement covers (well-formed columns, a range every row covers) is
+// reported through errp.
+func apply(c container, m *model, op string, frz *[]frozen, errp *string) (container, bool) {
 	n := len(m.rows)
 	appendCols := func(cols ...[]alphabet.QLetter) error {
 		switch v := c.(type) {
@@ -347,7 +349,8 @@ func apply(c container, m *model, op string, frz *[]frozen) (container, bool) {
 				m.rows[i].cells = append(m.rows[i].cells, cols[j][i])
 			}
 		}
-		if appendCols(cols...) != nil {
+		if err := appendCols(cols...); err != nil {
+			*errp = fmt.Sprintf("AppendColumns of %d well-formed columns returned %v", len(cols), err)
 			return c, false
 		}
 		for _, col := range cols {
@@ -377,7 +380,8 @@ func apply(c container, m *model, op string, frz *[]frozen) (container, bool) {
 				}
 			}
 		}
-		if appendEach(runs) != nil {
+		if err := appendEach(runs); err != nil {
+			*errp = fmt.Sprintf("AppendEach of %d runs returned %v", len(runs), err)
 			return c, false
 		}
 		for _, r := range runs {
@@ -475,6 +479,7 @@ func apply(c container, m *model, op string, frz *[]frozen) (container, bool) {
 			*frz = append(*frz, frozen{c, m.clone(), "source of Subseq"})
 			ns, err := mm.Subseq(lo, hi)
 			if err != nil {
+				*errp = fmt.Sprintf("Subseq(%d,%d), a range every row covers, returned %v", lo, hi, err)
 				return c, false
 			}
 			c = ns
@@ -490,15 +495,18 @@ func apply(c container, m *model, op string, frz *[]frozen) (container, bool) {
 		if op != "SS" {
 			switch v := c.(type) {
 			case *multi.Multi:
-				if v.Truncate(lo, hi) != nil {
+				if err := v.Truncate(lo, hi); err != nil {
+					*errp = fmt.Sprintf("Truncate(%d,%d), a range every row covers, returned %v", lo, hi, err)
 					return c, false
 				}
 			case *alignment.Seq:
-				if sequtils.Truncate(v, v, lo, hi) != nil {
+				if err := sequtils.Truncate(v, v, lo, hi); err != nil {
+					*errp = fmt.Sprintf("Truncate(%d,%d), a range every row covers, returned %v", lo, hi, err)
 					return c, false
 				}
 			case *alignment.QSeq:
-				if sequtils.Truncate(v, v, lo, hi) != nil {
+				if err := sequtils.Truncate(v, v, lo, hi); err != nil {
+					*errp = fmt.Sprintf("Truncate(%d,%d), a range every row covers, returned %v", lo, hi, err)
 					return c, false
 				}
 			}
@@ -542,7 +550,12 @@ func play(c *enum.Ctx, k kase) (key string, steps int, ok bool) {
 		steps++
 		var applicable bool
 		before := m.String()
-		if c.Guard(k.Kind+"/"+op+"/panic", k, func() { cur, applicable = apply(cur, m, op, &frz) }) {
+		var opErr string
+		if c.Guard(k.Kind+"/"+op+"/panic", k, func() { cur, applicable = apply(cur, m, op, &frz, &opErr) }) {
+			return "", steps, false
+		}
+		if opErr != "" {
+			fail(op+"/error", "step %d %s on %s: %s", i, op, before, opErr)
 			return "", steps, false
 		}
 		if !applicable {
